@@ -69,6 +69,10 @@ def deep_values():
         out.append(tg.nested_struct(k))                      # k structs + leaf
         out.append(" ".join(["L15,1"] * k + ["L3,0"]))       # k+1 lists
         out.append(" ".join(["M8,13,1 i1"] * k + ["M8,8,0"]))
+        out.append(" ".join(["T14,1"] * k + ["T3,0"]))        # k+1 sets
+        out.append(" ".join(["M13,3,1"] * k + ["M8,8,0"] + ["y1"] * k))   # nesting through the map KEY
+        if k >= 4:
+            out.append(" ".join(["L14,1", "T13,1", "M8,12,1 i1", "S1 f1"] * (k // 4) + ["L3,0"]))   # mixed
     for k in [63, 64, 65]:
         out.append("S2 f1 i1 f2 " + tg.nested_struct(k - 1))     # deep second field after a shallow one
         out.append("L12,2 S0 " + tg.nested_struct(k - 1))
